@@ -80,6 +80,8 @@ def scenarios():
     # saved results of analysis modules, filled from hand-made hit tables (their external tools are not available here)
     for name in sorted(modcases.CASES):
         out.append({"kind": "module", "name": name})
+    out.append({"kind": "filter-groups", "groups": [["A", "B"], ["B", "C"]], "hits": [["A", 0, 50, 50], ["B", 10, 60, 40], ["C", 20, 70, 30]]})
+    out.append({"kind": "filter-groups", "groups": [["B", "C"], ["A", "B"], ["A", "C"]], "hits": [["A", 0, 50, 30], ["B", 10, 60, 40], ["C", 20, 70, 50]]})
     out.append({"kind": "refine", "hits": [["A", 0, 30, 1], ["B", 0, 60, 1], ["A", 0, 60, 1], ["B", 0, 30, 1]]})
     out.append({"kind": "refine", "hits": [["A", 0, 30, 2], ["A", 25, 60, 2], ["B", 10, 50, 2], ["regulatorR", 0, 10, 2]]})
     return out
@@ -123,6 +125,18 @@ def run_scenario(sc):
     """-> bytes-like canonical output of the whole chain"""
     if sc["kind"] == "module":
         return modcases.CASES[sc["name"]]()
+    if sc["kind"] == "filter-groups":
+        # the detection filters applied with the equivalence groups as the rule set hands them out: groups sharing a profile do
+        # not commute, so the order the rule set keeps them in is part of the result
+        from mc.props import c13  # pylint: disable=import-outside-toplevel
+        ruleset = c03.make_ruleset([("r1", 3, 1, c03.ID_A, [], None)], {"g": {"A": 7, "B": 7, "C": 7}}, equivalence_groups=sc["groups"])
+        hits = [c13._HSP(*h) for h in sc["hits"]]  # pylint: disable=protected-access
+        for hsp, original in zip(hits, sc["hits"]):
+            hsp.hit_id, hsp.query_id = "gene", original[0]     # as the filters expect: query_id = profile, hit_id = gene
+        results, by_id = cluster_prediction.filter_results(list(hits), {"gene": list(hits)}, ruleset.get_equivalence_groups())
+        results, by_id = cluster_prediction.filter_result_multiple(results, by_id)
+        return json.dumps([[(h.query_id, h.hit_start, h.hit_end) for h in results],
+                           {k: [(h.query_id, h.hit_start, h.hit_end) for h in v] for k, v in by_id.items()}])
     if sc["kind"] == "protos":
         from mc.universe import protos as P  # pylint: disable=import-outside-toplevel
         rec, _ = P.make_slotted_record(8, sc["circ"], P.default_core_functions(8))
@@ -252,7 +266,7 @@ def _first_difference(a, b):
 
 
 def _locus(default, outcome, sc):
-    return "saved-results" if sc["kind"] == "module" else _first_difference(default, outcome)
+    return {"module": "saved-results", "filter-groups": "filtered-hits"}.get(sc["kind"]) or _first_difference(default, outcome)
 
 
 CHILD = r'''
@@ -298,7 +312,7 @@ def run_shard(shard):
     if shard[0] == "scenario":
         _, index, tier = shard
         sc = scenarios()[index]
-        small = sc["kind"] in ("refine", "module") or len(sc.get("starts", [])) == 1
+        small = sc["kind"] in ("refine", "module", "filter-groups") or len(sc.get("starts", [])) == 1
         if tier == "quick":
             bound, cap = (2, None) if (small and sc.get("family") in (None, "twins", "superiors")) else (1, None)
         else:
